@@ -56,6 +56,10 @@ def corpus_case(draw, tier="quick"):
             c2["fkinds"] = [draw(st.sampled_from(kinds)) for _ in c["ins"]]
             entries.append(c2)
             continue
+        elif mode == 5:
+            # several adjacent output-only axes: the common-subexpression pass has overlapping candidates there; which one it
+            # takes must not depend on hashing or on the identifiers drawn for unnamed axes
+            c = draw(G.call_case(ops=G.FAMILY_OPS["elementwise"] + G.REDUCE + G.ARGFIND + ["id", "get_at"], quick=True, backends=B, flags={"bcast_heavy": True, "no_diag": True}))
         else:
             c = draw(G.call_case(quick=True, backends=B))
         if mode == 0 and c["meta"].get("minimal"):
